@@ -10,7 +10,7 @@ import (
 )
 
 func profile() vh.ShimProfile {
-	v := []string{"current", "current", "forever", "past", "past", "justpast", "future", "soon", "zero", "aftermax", "beforebig"}
+	v := []string{"current", "current", "forever", "past", "past", "justpast", "future", "soon", "zero", "aftermax", "beforebig", "inverted-past", "inverted-future"}
 	if lapseShare() > 0 {
 		for i := 0; i < lapseShare(); i++ {
 			v = append(v, "lapsing")
